@@ -97,6 +97,17 @@ def run_tree(rec, tier, seed, ti, spec, other):
         rng.shuffle(items)
         stage.write_tree(xml_root, dict(items))
         case = {"tree": ti, "xml": files}
+        # the same types living in other directories (map <-> pub, net/client <-> net/server structs and enums
+        # swapped): generated first in the same process by the "other-tree-first" configuration
+        moved = spec.clone()
+        for a, b in (("map", "pub"), ("net/client", "net/server")):
+            fa, fb = moved.files[a], moved.files[b]
+            fa.enums, fb.enums = fb.enums, fa.enums
+            fa.structs, fb.structs = fb.structs, fa.structs
+        bad_names = any(n.lower() in {"": {"net", "map", "pub"}, "net": {"client", "server"}, "pub": {"server"}}.get(p, ()) for n, (d, p) in moved.types().items())
+        have_moved = not grammar.check(moved) and not bad_names
+        if have_moved:
+            stage.write_tree(xml_root + ".other", S.render(moved))
         base_out = os.path.join(work, "out-base")
         base = drive(stage.REPO, xml_root, base_out)
         rec.case((ti, "baseline"), nontrivial=sum(1 for f in spec.files.values() if f.enums or f.structs or f.packets) >= 2)
@@ -115,6 +126,8 @@ def run_tree(rec, tier, seed, ti, spec, other):
                    ("walk-shuffle-a", dict(walk_seed=11 + ti)), ("walk-shuffle-b", dict(walk_seed=977 + ti, hashseed="5")),
                    ("same-instance-twice", dict(mode="twice-same-instance")), ("new-instance-twice", dict(mode="twice-new-instance")),
                    ("after-failed-run", dict(mode="failed-then-good"))]
+        if have_moved:
+            configs.append(("other-tree-first", dict(mode="other-tree-first")))
         if ti < 0:
             # the hand-written tree has cross-directory enum references: try more enumeration orders
             configs += [("walk-shuffle-%d" % w, dict(walk_seed=w)) for w in (101, 202, 303, 404, 505, 606)]
